@@ -6,14 +6,24 @@ legs: MC   TLC checks mechanism (conversions; transfer; summarize | truncate; co
            before / inside / after / equal to entry dates.  Non-vacuity: CLEAR before CLOSE, CLEAR before and after CLOSE,
            CLOSE before OPEN, filter before the clauses, and the compile step as shipped before the repair 41a2136 (OPEN +
            bare CLOSE crashed with TypeError) must each be rejected by TLC.
+           Nested statements  ... FROM <clauses> WHERE account IN (SELECT account FROM <filter> <clauses>): the mechanism
+           compiles both FROM clauses (table.update with the clauses written in each), prepares the table of the subquery
+           and then the statement's own; ScopeInv: the FROM clause of the subquery presents the period report of ITS OWN
+           clauses (all declarative clauses, every clause subset incl. the empty one) and the statement returns the rows of
+           its own report the subquery selects.  Non-vacuity: a subquery inheriting the clauses of the enclosing statement
+           when its FROM clause has none, and a statement ranging over the table of its subquery, must be rejected.
       S2C  TLC emits (ledger, clauses, filter) with what the statement determines of the returned rows (original postings
            kept, totals of the non-Equity positions, value at cost of all rows, every transaction balanced); the driver
            builds the ledger with beancount.core.data, runs SELECT / BALANCES / JOURNAL through the API and PRINT through
-           the shell (output re-read with beancount's parser) and compares the projections.
+           the shell (output re-read with beancount's parser) and compares the projections.  Nested statements (SELECT and
+           BALANCES; subqueries whose selection the statement determines: no clause + any filter, clauses + a filter that
+           passes no synthetic transaction, CLOSE before OPEN inside the subquery) are emitted and compared the same way.
       C2S  the beancount example ledger and seeded random ledgers (price conversions, lots at cost, decimals) are run
            through several (d, e, clauses) configurations each; the ledger's postings and the returned rows are logged
            and Trace_Summarize makes TLC evaluate the declarative clauses on every logged case (totals of the full ledger
-           are computed by the spec from the logged postings).
+           are computed by the spec from the logged postings).  Nested statements over pairs of the configurations run on
+           the same ledger are logged too; TLC judges them (ScopeOK) against the rows logged for the statement's clauses
+           and for the subquery's clauses.
 """
 import collections
 import datetime
@@ -102,29 +112,74 @@ def from_clause(c, datefn=day):
 
 
 HEADS = {'select': 'SELECT ' + COLUMNS, 'balances': 'BALANCES', 'journal': 'JOURNAL', 'print': 'PRINT'}
+NO_FILTER = {'n': 'none', 'a': 0}
+PLAIN = {'open': 0, 'close': -1, 'clear': False, 'filter': NO_FILTER}
+NO_SUB = {'on': False, 'c': PLAIN}
+TMPL_CLAUSES = 'OPEN ON 2000-01-01 CLOSE ON 2000-01-02 CLEAR'
 
 
-def statement(kind, c, datefn=day, as_text=True):
-    """the statement for clauses c: its text, or (as_text=False) an AST made from a template parsed once per filter
-    expression whose OPEN / CLOSE / CLEAR fields are filled in (TatSu needs 20-50 ms per text)"""
+def sub_of(x):
+    """the subquery descriptor of a generated case / a trace event ({'on': False, ..} = a plain statement)"""
+    return x.get('sub') or NO_SUB
+
+
+def same_clauses(a, b):
+    return (a['open'], a['close'], a['clear']) == (b['open'], b['close'], b['clear'])
+
+
+def has_clauses(c):
+    return c['open'] > 0 or c['close'] >= 0 or bool(c['clear'])
+
+
+def tmpl_from_text(f, datefn):
+    """the FROM clause of a template: the filter expression (a placeholder date for the date comparisons) and all three
+    clauses, to be overwritten by fill_from"""
+    if f['n'] in ('ge', 'lt'):
+        ft = 'date %s 2000-01-03' % ('>=' if f['n'] == 'ge' else '<')
+    else:
+        ft = filter_text(f, datefn)
+    return ('FROM %s %s' % (ft, TMPL_CLAUSES)).replace('  ', ' ')
+
+
+def fill_from(frm, c, datefn):
+    """template From node -> the From node of clauses c (None if c writes no FROM clause at all)"""
     import dataclasses
+    f = c['filter']
+    expr = frm.expression
+    if f['n'] in ('ge', 'lt'):          # one template per comparison, the date constant filled in
+        expr = dataclasses.replace(expr, right=dataclasses.replace(expr.right, value=datefn(f['a'])))
+    if expr is None and not has_clauses(c):
+        return None
+    return dataclasses.replace(frm, expression=expr, open=datefn(c['open']) if c['open'] > 0 else None,
+                               close=True if c['close'] == 0 else (datefn(c['close']) if c['close'] > 0 else None),
+                               clear=True if c['clear'] else None)
+
+
+def statement(kind, c, datefn=day, as_text=True, sub=None):
+    """the statement for clauses c: its text, or (as_text=False) an AST made from a template parsed once per filter
+    expression whose OPEN / CLOSE / CLEAR fields are filled in (TatSu needs 20-50 ms per text).
+    sub (on): the statement is nested -- <head> FROM <c> WHERE account IN (SELECT account FROM <sub.c>): every FROM clause
+    with its own filter expression and its own subset of the clauses (the subquery always has a FROM clause)"""
+    import dataclasses
+    nested = bool(sub and sub['on'])
     fc = from_clause(c, datefn)
     text = ('%s %s' % (HEADS[kind], fc)).strip()
-    if as_text or not fc:
+    if nested:
+        ifc = from_clause(sub['c'], datefn)
+        if not ifc:
+            raise MachineryError('a subquery without FROM clause is outside the property: %r' % (sub,))
+        text += ' WHERE account IN (SELECT account %s)' % ifc
+    if as_text or (not fc and not nested):
         return text, text
-    f = c['filter']
-    if f['n'] in ('ge', 'lt'):          # one template per comparison, the date constant filled in
-        tmpl = parsed('%s FROM date %s 2000-01-03 OPEN ON 2000-01-01 CLOSE ON 2000-01-02 CLEAR' % (
-            HEADS[kind], '>=' if f['n'] == 'ge' else '<'))
-        e = tmpl.from_clause.expression
-        expr = dataclasses.replace(e, right=dataclasses.replace(e.right, value=datefn(f['a'])))
-    else:
-        tmpl = parsed('%s FROM %s OPEN ON 2000-01-01 CLOSE ON 2000-01-02 CLEAR' % (HEADS[kind], filter_text(f, datefn)))
-        expr = tmpl.from_clause.expression
-    frm = dataclasses.replace(tmpl.from_clause, expression=expr, open=datefn(c['open']) if c['open'] > 0 else None,
-                              close=True if c['close'] == 0 else (datefn(c['close']) if c['close'] > 0 else None),
-                              clear=True if c['clear'] else None)
-    return dataclasses.replace(tmpl, from_clause=frm), text
+    if not nested:
+        tmpl = parsed('%s %s' % (HEADS[kind], tmpl_from_text(c['filter'], datefn)))
+        return dataclasses.replace(tmpl, from_clause=fill_from(tmpl.from_clause, c, datefn)), text
+    tmpl = parsed('%s %s WHERE account IN (SELECT account %s)' % (
+        HEADS[kind], tmpl_from_text(c['filter'], datefn), tmpl_from_text(sub['c']['filter'], datefn)))
+    inner = tmpl.where_clause.right
+    inner = dataclasses.replace(inner, from_clause=fill_from(inner.from_clause, sub['c'], datefn))
+    return dataclasses.replace(tmpl, from_clause=fill_from(tmpl.from_clause, c, datefn),
+                               where_clause=dataclasses.replace(tmpl.where_clause, right=inner)), text
 
 
 # ---- ledgers --------------------------------------------------------------------------------------------------------
@@ -387,6 +442,15 @@ def kept_of(rows, with_price=True):
             for r in rows if r['flag'] not in SYNTH]
 
 
+def case_key(case):
+    """clauses of the statement [/ in(<clauses of the subquery>:<its filter>)]"""
+    sub = sub_of(case)
+    k = clause_key(case['c'])
+    if sub['on']:
+        k += '/in(%s:%s)' % (clause_key(sub['c']), sub['c']['filter']['n'])
+    return k
+
+
 def clause_key(c):
     s = []
     if c['open'] > 0:
@@ -403,7 +467,8 @@ def clause_key(c):
 def judge_s2c(ctx, case, keys, via, obs, leg='S2C'):
     """compare one observation with the spec's expectation; returns True if it conforms"""
     c = case['c']
-    ck = clause_key(c)
+    ck = case_key(case)
+    nested = sub_of(case)['on']
     info = {'case': case, 'via': via}
     if case['status'] == 'rejected':
         if obs.err == 'CompilationError':
@@ -440,7 +505,7 @@ def judge_s2c(ctx, case, keys, via, obs, leg='S2C'):
             ctx.violation('totals:%s:%s:%s' % (via, ck, c['filter']['n']), 'totals of the Assets/Liabilities/Income/Expenses positions',
                           info, leg, fmt(tot), fmt(got))
             ok = False
-        if values(rows) != val:
+        if not nested and values(rows) != val:       # a WHERE clause picks Equity rows by account: value not determined
             ctx.violation('equity:%s:%s:%s' % (via, ck, c['filter']['n']), 'value at cost of all rows (difference carried by Equity)',
                           info, leg, fmt(val), fmt(values(rows)))
             ok = False
@@ -450,7 +515,7 @@ def judge_s2c(ctx, case, keys, via, obs, leg='S2C'):
                       'fixed order OPEN, CLOSE, CLEAR: opening balances (S), the period, conversions (C), transfers (T)',
                       info, leg, 'S* original* C* T*', ''.join(r['flag'] for r in rows))
         ok = False
-    if with_price:
+    if with_price and not nested:                    # ... and picks postings out of the transactions
         ub = unbalanced(rows)
         if ub:
             ctx.violation('balance:%s:%s:%s' % (via, ck, c['filter']['n']), 'every returned transaction balances by weight',
@@ -499,7 +564,7 @@ def replay_case(ctx, case, keys, vias, leg='S2C', as_text=True):
     conn = connect(entries)
     ok = True
     for via in vias:
-        st, _ = statement(via, case['c'], day, as_text or via == 'print')      # PRINT always as text through the shell
+        st, _ = statement(via, case['c'], day, as_text or via == 'print', sub_of(case))      # PRINT always as text through the shell
         obs = RUNNERS[via](conn, st)
         ok = judge_s2c(ctx, case, keys, via, obs, leg) and ok
     return ok
@@ -522,11 +587,16 @@ def _s2c_worker(args):
     n_stmt = collections.Counter()
     for i, case in enumerate(cases):
         vias = ['select']
-        if (i + offset) % print_every == 0:
-            vias.append('print')
-        if (i + offset) % bj_every == 0:          # BALANCES / JOURNAL re-parse their SELECT template on every call (~0.1 s)
-            vias += ['balances', 'journal']
-        as_text = (i + offset) % 16 == 0       # TatSu needs ~0.1 s per SELECT text: one case in 16 goes through the text
+        if sub_of(case)['on']:                    # JOURNAL and PRINT have no WHERE clause
+            if (i + offset) % (bj_every // 2) == 0:
+                vias.append('balances')
+        else:
+            if (i + offset) % print_every == 0:
+                vias.append('print')
+            if (i + offset) % bj_every == 0:          # BALANCES / JOURNAL re-parse their SELECT template on every call (~0.1 s)
+                vias += ['balances', 'journal']
+        # TatSu needs ~0.1 s per SELECT text: one case in 16 goes through the text (nested, 0.15 s: one in 48)
+        as_text = (i + offset) % (48 if sub_of(case)['on'] else 16) == 0
         replay_case(col, case, keys, vias, as_text=as_text)
         for v in vias:
             n_stmt[v] += 1
@@ -724,8 +794,11 @@ def pick_configs(rng, entries, n, with_rejected=True):
     return out
 
 
-def record_ledger(ctx, f, lid, entries, opts, configs, exact, print_every, filter_every, counters):
-    """run the configurations on one ledger; write the 'ledger' line and the 'case' lines; returns the number of lines"""
+def record_ledger(ctx, f, lid, entries, opts, configs, exact, print_every, filter_every, counters, n_nested=0):
+    """run the configurations on one ledger; write the 'ledger' line and the 'case' lines; returns the number of lines.
+    n_nested: that many nested statements  SELECT .. FROM <co> WHERE account IN (SELECT account FROM <fi> <ci>)  with co, ci
+    drawn from the configurations run before on this ledger (and the empty clause subset): TLC judges them against the
+    rows recorded for co and for ci"""
     import beanquery
     rng = ctx.rng
     kt = KeyTable()
@@ -736,14 +809,15 @@ def record_ledger(ctx, f, lid, entries, opts, configs, exact, print_every, filte
         return 0
     lines = []
 
-    def one(c, via):
+    def one(c, via, sub=NO_SUB):
         as_text = counters['statements'] % 20 == 0          # every 20th statement as text, the others as filled-in ASTs
-        st, fc = statement(via, c, ordinal_date, as_text)
+        st, fc = statement(via, c, ordinal_date, as_text, sub)
         obs = RUNNERS[via](conn, st)
         counters['statements'] += 1
         counters['as_text'] += as_text
-        ev = {'ev': 'case', 'lid': lid, 'id': counters['id'], 'c': c, 'via': via, 'err': obs.err or '', 'msg': obs.msg[:120],
-              'rows': [], 'text': fc}
+        counters['nested'] += bool(sub['on'])
+        ev = {'ev': 'case', 'lid': lid, 'id': counters['id'], 'c': c, 'sub': sub, 'via': via, 'err': obs.err or '',
+              'msg': obs.msg[:120], 'rows': [], 'text': fc}
         counters['id'] += 1
         if obs.err is None:
             rows = trace_rows(obs.rows, kt)
@@ -755,16 +829,34 @@ def record_ledger(ctx, f, lid, entries, opts, configs, exact, print_every, filte
         return ev
 
     dates = sorted({r['date'] for r in lp}) or [737791]
+
+    def some_filter(names):
+        fn = rng.choice(names)
+        return {'n': fn, 'a': 0 if fn in ('none', 'orig', 'synth') else rng.choice(dates) if fn in ('ge', 'lt') else rng.randrange(1, 6)}
+    if n_nested and not any(same_clauses(c, PLAIN) for c in configs):
+        configs = configs + [dict(PLAIN)]                 # the empty clause subset: the ledger itself
+    based, refused = [], []
     for n, c in enumerate(configs):
         ev = one(c, 'select')
+        if ev is not None and ev['err'] == 'CompilationError' and c['open'] > c['close'] > 0:
+            refused.append(c)
         if ev is None or ev['err']:
             continue
+        based.append(c)
         if n % print_every == 0:
             one(c, 'print')
         if n % filter_every == 0:
             for fn in rng.sample(['orig', 'synth', 'ge', 'lt', 'nott', 'onlyt'], 2):
                 a = rng.choice(dates) if fn in ('ge', 'lt') else rng.randrange(1, 6)
                 one(dict(c, filter={'n': fn, 'a': a}), rng.choice(['select', 'select', 'print']))
+    filters = ['orig', 'synth', 'ge', 'lt', 'nott', 'onlyt']
+    for n in range(n_nested if based else 0):
+        co = rng.choice(based)
+        r = rng.random()
+        ci = dict(PLAIN) if r < 0.4 else rng.choice(refused) if r < 0.45 and refused else rng.choice(based)
+        fi = some_filter(filters if not has_clauses(ci) else filters + ['none', 'none', 'none'])
+        fo = some_filter(['none', 'none', 'none'] + filters)
+        one(dict(co, filter=fo), 'select', {'on': True, 'c': dict(ci, filter=fi)})
     f.write(json.dumps({'ev': 'ledger', 'lid': lid, 'exact': exact, 'kt': kt.rows, 'lp': lp, 'id': -1}) + '\n')
     for ev in lines:
         f.write(json.dumps(ev) + '\n')
@@ -785,7 +877,7 @@ def validate_trace(ctx, path, nlines, what):
         if failed == ['err:TypeError'] and c['open'] > 0 and c['close'] == 0 and "'>' not supported" in ev['msg']:
             key = KNOWN_BARE
         else:
-            key = 'trace:%s:%s:%s:%s' % (ev['via'], clause_key(c), c['filter']['n'], ','.join(failed))
+            key = 'trace:%s:%s:%s:%s' % (ev['via'], case_key(ev), c['filter']['n'], ','.join(failed))
         # the ledger line of that case, for the replay file
         led = next(json.loads(x) for x in lines if x.startswith('{"ev": "ledger"') and json.loads(x)['lid'] == ev['lid'])
         small = len(led['lp']) <= 400
@@ -814,14 +906,15 @@ def c2s(ctx):
             entries, opts = example_ledger(ctx.seed + i, begin, end)
             configs = pick_configs(ctx.rng, entries, ctx.pick(8, 16))
             nled += 1
-            nlines += record_ledger(ctx, f, nled, entries, opts, configs, False, ctx.pick(4, 4), ctx.pick(4, 4), counters)
+            nlines += record_ledger(ctx, f, nled, entries, opts, configs, False, ctx.pick(4, 4), ctx.pick(4, 4), counters,
+                                    n_nested=ctx.pick(4, 12))
         n_example = counters['id']
         # seeded random ledgers
         for i in range(ctx.pick(32, 500)):
             entries = random_ledger(ctx.rng, ctx.rng.choice([0, 1, 3, 8, 20, 40, 60]), ctx.rng.choice([5, 30, 120]))
             configs = pick_configs(ctx.rng, entries, ctx.pick(12, 16))
             nled += 1
-            nlines += record_ledger(ctx, f, nled, entries, options(), configs, True, 3, 3, counters)
+            nlines += record_ledger(ctx, f, nled, entries, options(), configs, True, 3, 3, counters, n_nested=ctx.pick(5, 8))
     with open(path) as f:
         for line in f:
             if line.startswith('{"ev": "case"'):
@@ -832,7 +925,7 @@ def c2s(ctx):
     ctx.case('c2s', n=counters['id'])
     ncases, nrej = validate_trace(ctx, path, nlines, 'example ledger + random ledgers')
     ctx.leg('C2S', ledgers=nled, cases=ncases, example_ledger_cases=n_example, statements=counters['statements'],
-            submitted_as_text=counters['as_text'],
+            submitted_as_text=counters['as_text'], nested_statements=counters['nested'],
             rejected=nrej, lines=nlines)
 
 
@@ -840,6 +933,7 @@ def c2s(ctx):
 # every run of the mechanism is a chain of <= 10 states: a LIFO state queue keeps a few hundred states in memory instead of
 # a whole breadth-first level (millions of states in the thorough tier); the search stays exhaustive
 LIFO = {'dfs': True, 'jvm': ('-Xmx4g',)}
+NESTED_STEPS = ('SubCollect', 'ApplyWhere')
 STEPS = ('Statement', 'Compile', 'OpenConversions', 'OpenTransfer', 'OpenSummarize', 'CloseTruncate', 'CloseConversions',
          'ClearTransfer', 'ApplyFilter')
 
@@ -857,6 +951,10 @@ def run(ctx):
         '"the clauses apply in the fixed order OPEN, CLOSE, CLEAR" is observed as the layout of the rows: opening balances (S), '
         'the transactions of the period, the conversions entry of CLOSE (C), the transfers of CLEAR (T)',
         'the filter expression refers to transaction-level attributes (date, flag, narration)',
+        '"every subset of the three clauses ... combined with any FROM filter expression" is read per FROM clause: a FROM clause '
+        'standing in a subquery presents the report of the clauses written in it (the ledger itself for the empty subset), '
+        'independently of the clauses of the enclosing statement; a subquery WITHOUT any FROM clause is outside the '
+        'statement (never generated)',
         'TLC 1.8, Json/IOUtils/SequencesExt community modules, beancount 3.x summarize as installed',
     ]
     # ---- MC
@@ -870,18 +968,42 @@ def run(ctx):
             if r.violated:
                 ctx.violation('spec:' + ','.join(r.violated), 'TLC violates the period-report clauses on the mechanism',
                               {'behaviour': r.behaviour[:4000]}, 'MC')
-        # per-action coverage (vacuity) on a small instance: -coverage triples the cost of the big run
-        r = ctx.tlc('MC_Summarize', 'MC_Summarize_cover.cfg', leg='MC-coverage', must_cover=STEPS, workers=4)
-        if r.violated:
-            ctx.violation('spec:' + ','.join(r.violated), 'TLC violates the period-report clauses on the mechanism',
-                          {'behaviour': r.behaviour[:4000]}, 'MC')
-        for cfg, inv in (('MC_Summarize_clearfirst.cfg', 'IncomeInv'), ('MC_Summarize_clearalso.cfg', 'LayoutInv'),
-                         ('MC_Summarize_closefirst.cfg', None),
-                         ('MC_Summarize_filterfirst.cfg', None), ('MC_Summarize_shipped.cfg', 'CompileInv')):
-            r = ctx.tlc('MC_Summarize', cfg, leg='MC-nonvacuity', workers=4)
+        # the small runs, three at a time (4 TLC workers each)
+        def holds(cfg, leg, **kw):
+            r = ctx.tlc('MC_Summarize', cfg, leg=leg, **kw)
+            if r.violated:
+                ctx.violation('spec:' + ','.join(r.violated), 'TLC violates the period-report clauses on the mechanism',
+                              {'behaviour': r.behaviour[:4000]}, 'MC')
+            return r
+
+        def refuted(cfg, inv, **kw):
+            r = ctx.tlc('MC_Summarize', cfg, leg='MC-nonvacuity', workers=4, **kw)
             if not r.violated or (inv and inv not in r.violated):
                 raise MachineryError('non-vacuity run %s: expected a counterexample%s, got %s' % (
                     cfg, ' to ' + inv if inv else '', r.violated))
+            return r
+        jobs = [
+            # nested statements: a FROM clause in a subquery presents the report of ITS OWN clauses (ScopeInv), for every clause
+            # subset of the statement x every clause subset of the subquery (the empty one included) x filters
+            (holds, (ctx.pick('MC_Summarize_nested.cfg', 'MC_Summarize_nested_thorough.cfg'), 'MC'),
+             dict(workers=ctx.pick(6, 16), **LIFO)),
+            # per-action coverage (vacuity) on small instances: -coverage triples the cost of the big runs
+            (holds, ('MC_Summarize_cover.cfg', 'MC-coverage'), dict(must_cover=STEPS, workers=4)),
+            (holds, ('MC_Summarize_nested_cover.cfg', 'MC-coverage'), dict(must_cover=STEPS + NESTED_STEPS, workers=4)),
+            (refuted, ('MC_Summarize_clearfirst.cfg', 'IncomeInv'), {}), (refuted, ('MC_Summarize_clearalso.cfg', 'LayoutInv'), {}),
+            (refuted, ('MC_Summarize_closefirst.cfg', None), {}), (refuted, ('MC_Summarize_filterfirst.cfg', None), {}),
+            (refuted, ('MC_Summarize_shipped.cfg', 'CompileInv'), {}),
+            # the subquery inherits the clauses of the enclosing statement when its FROM clause has none; the enclosing
+            # statement ranges over the table of the subquery
+            (refuted, ('MC_Summarize_inherit.cfg', 'ScopeInv'), dict(dfs=True)),
+            (refuted, ('MC_Summarize_norestore.cfg', None), dict(dfs=True)),
+        ]
+        import concurrent.futures
+        with concurrent.futures.ThreadPoolExecutor(3) as pool:
+            futs = [pool.submit(fn, *a, **kw) for fn, a, kw in jobs]
+            results = [fu.result() for fu in futs]
+        if results[0].depth < 14:
+            raise MachineryError('vacuity: the nested run is no deeper than a plain statement (depth %d)' % results[0].depth)
     # ---- S2C
     if not only or 'S2C' in only:
         keys = ctx.tlc('Gen_Summarize', 'Gen_SummarizeKeys.cfg', leg='GEN', workers=1).printed[0]['keys']
@@ -896,13 +1018,22 @@ def run(ctx):
         for case in cases:
             c = case['c']
             nontrivial = bool(case['ledger']) and (c['open'] > 0 or c['close'] >= 0 or c['clear'])
-            ctx.case(json.dumps([[[t['date'], [[p['k'], p['u'][0], p['pn']] for p in t['ps']]] for t in case['ledger']], c],
-                                sort_keys=True), nontrivial)
+            sub = sub_of(case)
+            ctx.case(json.dumps([[[t['date'], [[p['k'], p['u'][0], p['pn']] for p in t['ps']]] for t in case['ledger']], c,
+                                 sub['c'] if sub['on'] else 0], sort_keys=True), nontrivial)
+            if sub['on']:
+                seen['nested'] += 1
+                seen['nested:' + ('rejected' if case['status'] == 'rejected' else
+                                  'own-clauses' if has_clauses(sub['c']) else 'filter-only')] += 1
+                seen['nested-in:' + clause_key(c)] += 1
+                continue
             seen[clause_key(c)] += 1
             seen['filter:' + c['filter']['n']] += 1
             seen['status:' + case['status']] += 1
         for need in ('plain', 'open', 'close', 'bare-close', 'clear', 'open+close', 'open+bare-close', 'open+clear', 'close+clear',
-                     'bare-close+clear', 'open+close+clear', 'open+bare-close+clear', 'status:rejected', 'filter:ge'):
+                     'bare-close+clear', 'open+close+clear', 'open+bare-close+clear', 'status:rejected', 'filter:ge',
+                     'nested:filter-only', 'nested:own-clauses', 'nested:rejected', 'nested-in:plain', 'nested-in:open',
+                     'nested-in:close+clear', 'nested-in:open+close+clear'):
             if not seen[need]:
                 raise MachineryError('vacuity: no generated case with %s' % need)
         ctx.sample({'leg': 'S2C', 'case': {k: cases[len(cases) // 2][k] for k in ('c', 'status', 'kept', 'tot', 'val')},
